@@ -222,7 +222,7 @@ pub fn run(ctx: &Ctx) -> Report {
     // replay of the committed corpus (quick), libFuzzer campaign (thorough)
     crate::fuzzrun::replay_corpus("spell", &mut total);
     if ctx.tier == Tier::Thorough {
-        crate::fuzzrun::campaign("spell", ctx.seed, 300_000, 8, 400, &mut total);
+        crate::fuzzrun::campaign("spell", ctx.seed, 100_000, 8, 400, &mut total);
     }
     Report {
         stats: total,
